@@ -89,10 +89,11 @@ theorem written_stamp (t : Rat) :
     show List.take 12 (pad2 (us / 1000000 % 86400 / 3600) ++ ':' :: pad2 (us / 1000000 % 86400 % 3600 / 60) ++ ':' ::
         pad2 (us / 1000000 % 86400 % 3600 % 60) ++ ',' :: List.take 3 (pad3 (us % 1000000 / 1000))) = _
     have e3 : List.take 3 (pad3 (us % 1000000 / 1000)) = pad3 (us % 1000000 / 1000) :=
-      List.take_of_length_le (by rw [l4]; exact Nat.le_refl 3)
+      List.take_of_length_le (Nat.le_of_eq l4)
     rw [e3]
     apply List.take_of_length_le
-    simp only [List.length_append, List.length_cons, l1, l2, l3, l4]; omega
+    simp only [List.length_append, List.length_cons, l1, l2, l3, l4]
+    first | done | omega
   · unfold srtStampVal
     rw [v1, v2, v3, v4]
     omega
